@@ -5,8 +5,8 @@ MANIFEST = dict(
     text="Decided on the real bodies for bounded sizes: the ROC curve of every label pattern and every score order (scores symbolic, no ties) "
          "starts at (0,0), has one point per object in descending score order with coordinates count/total, is monotone and ends at (1,1), the precision-recall curve starts at (0,1), has non-decreasing recall ending at 1 with each point = (tp/positives, tp/(tp+fp)); "
          "R2, MSE, RMSE, MAE and BIAS equal their formulas on exact instances (integer truths/predictions 0..3, 2 or 4 elements, total sum of squares a power of two: every intermediate is exactly representable, so the "
-         "obligation is independent of the evaluation order; sqrt uninterpreted), with errors 0 and R2 = 1 for perfect prediction; "
-         "the 'missing-coded truths are ignored' obligation for R2/MSE/MAE/BIAS (value equals the function on the vectors without that element) is only attempted in the thorough tier: no back end finished it within 15 minutes; the PLS "
+         "obligation is independent of the evaluation order; sqrt uninterpreted), with errors 0 and R2 = 1 for perfect prediction, and a missing-coded truth in any position is ignored (3 elements, one missing-coded: each figure equals its formula over the other two); "
+         "the general-data form of the 'missing-coded truths are ignored' obligation for R2/MSE/MAE/BIAS (value equals the function on the vectors without that element) is only attempted in the thorough tier: no back end finished it within 15 minutes; the PLS "
          "statistic tables are R2/RMSE/BIAS applied per response and latent variable to the right columns with missing-coded rows removed.",
     note="Bounded: 2..3 objects for ROC (all patterns/orders enumerated), 3 elements for the missing-value obligation, 2..3 rows for the tables. "
          "AUC = Mann-Whitney probability, invariance under monotone maps, 1-AUC under negation, MAE <= RMSE, R2 <= 1, RMSE^2 = MSE are "
@@ -14,7 +14,7 @@ MANIFEST = dict(
     technique="CBMC on the real ROC / R2 / MSE / MAE / BIAS / PLSRegressionStatistics bodies; enumerated label patterns and orders; oracle statistics for table wiring")
 
 META = dict(decided="R2/MSE/RMSE/MAE/BIAS == formulas on exact instances; ROC point sequence, endpoints and monotonicity; PLS statistic table wiring incl. removal of missing-coded rows",
-            not_decided="missing-coded truths ignored inside R2/MSE/MAE/BIAS (attempted, solver timeout); AUC = Mann-Whitney, monotone-map invariance, complement rule, MAE <= RMSE, R2 <= 1, RMSE^2 = MSE, precision-recall area",
+            not_decided="missing-coded truths ignored on general (not exactly representable) data (attempted, solver timeout); AUC = Mann-Whitney, monotone-map invariance, complement rule, MAE <= RMSE, R2 <= 1, RMSE^2 = MSE, precision-recall area",
             trusted_base=["oracle area / statistics in harness/C15/stats.c"], assumptions=["scores without ties"])
 
 S = ["matrix.c", "vector.c", "memwrapper.c", "numeric.c", "interpolate.c"]
@@ -43,6 +43,11 @@ def jobs(tier):
                      defines={"VC_UNIT_FORMULAS": None, "VC_N": n}, unwind=n + 4, functions=["R2", "MSE", "RMSE", "MAE", "BIAS"], stubs=["stubs/usqrt_stub.c"], timeout=900,
                      bound="%d elements; cells symbolic in {0,1,2,3}, total sum of squares a power of two (IEEE, exact instances)" % n,
                      clause="R2, MSE, RMSE, MAE, BIAS == their formulas (which elements, argument order, counts, denominators; sqrt uninterpreted; exact instances, so independent of the evaluation order; rounding on general data not decided); perfect prediction gives 0 errors and R2 = 1"))
+    for miss in ((0, 2) if tier == "quick" else (0, 1, 2)):
+        J.append(Job("regression_formulas_missing@n=3,k=%d" % miss, "C15/stats.c", entry="h_regression_formulas", srcs=S + ["statistic.c"], mode="ieee", kind="bounded",
+                     defines={"VC_UNIT_FORMULAS": None, "VC_N": 3, "VC_MISS": miss}, unwind=7, functions=["R2", "MSE", "RMSE", "MAE", "BIAS"], stubs=["stubs/usqrt_stub.c"], timeout=900,
+                     bound="3 elements, truth %d missing-coded; other cells symbolic in {0,1,2,3}, total sum of squares a power of two (IEEE, exact instances)" % miss,
+                     clause="missing-coded truths are ignored by R2, MSE, RMSE, MAE, BIAS: each equals its formula over the remaining elements"))
     for (n, ny, nlv) in ([(2, 2, 2), (3, 1, 2)] if tier == "quick" else [(2, 2, 2), (3, 1, 2), (3, 2, 1), (3, 2, 2)]):
         J.append(Job("PLSRegressionStatistics@n=%d,ny=%d,nlv=%d" % (n, ny, nlv), "C15/stats.c", entry="h_PLSRegressionStatistics",
                      srcs=["matrix.c", "vector.c", "memwrapper.c", "numeric.c", "tensor.c", "list.c", "statistic.c", "preprocessing.c", "pca.c"], kind="bounded",
